@@ -15,10 +15,14 @@ out = ["# Sensitivity of the checks to independently seeded changes", "",
        "(see `seeded/<id>/meta.json`, `notes.md`), re-confirmed by `tools/verify_seed.sh` (82 tests pass with it, its "
        "demo fails with it and passes without it). `tools/sensitivity.sh` applies the patch to a scratch copy of `/repo` "
        "and runs the *quick* check of the targeted property (`VERIF_SEED=0`) with `NSL_REPO` pointing at the copy. "
-       "exit 1 = caught (the signature of the first violation is shown), exit 0 = missed.", "",
+       "exit 1 = caught (the signature of the first violation is shown), exit 0 = missed. Each row is the latest run of that "
+       "seed; rows are refreshed round by round (a full refresh of all 240 takes several hours), so older rows were produced by "
+       "earlier versions of the checks. The first replay of every caught seed is kept under `regressions/` and re-executed at "
+       "the start of the corresponding part of every later run.", "",
        "| seed | property | what it needs in order to manifest | quick check | first violation signature |",
        "|---|---|---|---|---|"]
 caught = 0
+elsewhere = 0
 for sid, prop, code, sig in rows:
     meta_p = os.path.join(HERE, "seeded", sid, "meta.json")
     need = ""
@@ -31,8 +35,15 @@ for sid, prop, code, sig in rows:
             need = " ".join(txt)[:220]
     need = need.replace("|", "/").replace("\n", " ")
     verdict = {"1": "caught", "0": "MISSED", "2": "harness error", "neutralised": "n/a (neutralised)"}.get(code, code)
+    if code == "0" and os.path.exists(meta_p):
+        mm = json.load(open(meta_p))
+        other = mm.get("caught_by_other") or (("neutralised: " + mm.get("neutralised_by", "")[:120]) if mm.get("status") == "neutralised" else None)
+        if other:
+            verdict = "not by %s; %s" % (prop, other)
+            elsewhere += 1
     caught += code == "1"
     out.append("| %s | %s | %s | %s | `%s` |" % (sid, prop, need, verdict, sig))
-out += ["", "%d of %d seeded changes are caught by the quick tier of the check of the property they target." % (caught, len(rows)), ""]
+out += ["", "%d of %d seeded changes are caught by the quick tier of the check of the property they target; %d more are accounted for "
+        "in the table (caught by the check of another property, or neutralised by a later fix)." % (caught, len(rows), elsewhere), ""]
 open(os.path.join(HERE, "SENSITIVITY.md"), "w").write("\n".join(out))
-print("SENSITIVITY.md: %d/%d caught" % (caught, len(rows)))
+print("SENSITIVITY.md: %d/%d caught, %d accounted for otherwise" % (caught, len(rows), elsewhere))
